@@ -62,4 +62,12 @@ PROPS = {
         ],
         assumptions=["chunk strings are valid UTF-8 (invalid bytes would be replaced by U+FFFD in JSON)"],
     ),
+    "C10": dict(
+        gen=[],
+        trusted=[
+            "OS descriptor semantics are abstracted as a table of open handles: one handle per successful reader open (PDF os.File, ZIP reader); the tie is the count of entries in /proc/self/fd after every operation of generated sequences",
+            "modelled: Extractor.Pages, PageRange, resolvePages, the page-join rule of Text, page-number stamping of Document(), clone/ensureReader/Close and the defer Close of terminal operations (Text, Chunks, Document, Fragments...). The per-page text extraction itself is not modelled here (C01/C08/C09); validateFormat is C20",
+        ],
+        assumptions=["ocr client sharing between clones is not modelled (tesseract is not available offline)"],
+    ),
 }
